@@ -223,6 +223,9 @@ class DecisionMatrix(DiffEqualityMixin):
             if isinstance(data_df, pd.DataFrame)
             else pd.DataFrame(data_df, copy=True)
         )
+        # the labels too: pandas shares their storage with the caller's axes
+        self._data_df.index = self._data_df.index.copy(deep=True)
+        self._data_df.columns = self._data_df.columns.copy(deep=True)
 
         self._objectives = np.array(objectives, dtype=object, copy=True)
         self._weights = np.array(weights, dtype=float, copy=True)
